@@ -26,7 +26,7 @@ func VH_C04_backlog() {
 	dest := m.Root("dest")
 	view := &vh_memFS{walkErrAt: -1, wholeReads: true}
 	for i := 0; i < n; i++ {
-		view.entries = append(view.entries, &vh_memEntry{stat: &types.Stat{Path: vh_nameOf(i), Mode: vh_modeFor(vh_clsDir, 0755), Uid: 1, Gid: 1, ModTime: vh_mtimeChoices[0]}})
+		view.entries = append(view.entries, &vh_memEntry{stat: &types.Stat{Path: vh_nameOf(i), Mode: vh_modeFor(vh_clsDir, 0755), Uid: 1, Gid: 1, ModTime: vh_mtimes()[0]}})
 	}
 	failAt := 1 + v.Choose("fail-at", 2)
 	useHasher := v.Bool("hasher-fails")
